@@ -14,25 +14,30 @@ ASSUMPTIONS = [
     "in-flight table: the slow-request time limit (low_time) is read from division_point(); the adaptive time analyzer is not re-derived. When a block arrives from a peer whose scheduler was evicted the code keeps the block's slow mark; the model follows the code there (the property's wording is about in-flight entries, not about slow marks)",
     "in-flight table: peer and timestamp of an InflightState are pub(crate); they are read from its Debug output",
     "header map: header epochs have a non-zero length (a zero-length epoch, which only the genesis header has, is rewritten to length 1 by the sled round trip and the genesis header is never put into the header map); block numbers stay below 2^40",
-    "ancestor lookup: the chain store, header map and main-chain index behind get_header_index_view / the main-chain shortcut are plain maps owned by the simulator and follow SyncShared::insert_valid_header / ActiveChain::get_ancestor_internal line by line",
+    "locator part: the node's real 5 s header-map timer spills at wall-clock-chosen moments; by the property this is unobservable, and the check relies on that for run isolation. The simulator never calls limit_memory concurrently with the timer (two concurrent limit_memory callers, which the product does not have, can drop a re-promoted header; outside the property, which places spills between operations)",
+    "ancestor lookup (part ancestor_skip_list): the chain store, header map and main-chain index behind get_header_index_view / the main-chain shortcut are plain maps owned by the simulator and follow SyncShared::insert_valid_header / ActiveChain::get_ancestor_internal line by line",
 ]
 REAL = [
     "ckb_chain OrphanBlockPool::{insert, remove_blocks_by_parent, clean_expired_blocks, len, clone_leaders} (via feature verif-hooks re-export)",
     "ckb_sync InflightBlocks::{insert, remove_by_block, remove_by_peer, mark_slow_block, prune, inflight_block_by_peer, inflight_state_by_block, peer_inflight_count, total_inflight_count, peer_can_fetch_count, division_point} on ckb_systemtime faketime",
     "ckb_shared HeaderMap::{insert, get, contains_key, remove} with HeaderMapKernel, MemoryMap and a real sled backend in a temp dir on tmpfs; limit_memory() through the verif_limit_memory hook",
     "ckb_shared HeaderIndexView::{new, build_skip, get_ancestor} and get_skip_height",
+    "ckb_sync SyncShared::{new, insert_valid_header, get_header_index_view} and ActiveChain::{get_locator, get_ancestor} on a real Shared (SharedBuilder::with_temp_db, genesis-only RocksDB, real HeaderMap incl. its own 5 s spill timer and a ~300-header memory limit)",
 ]
 STUB = [
     "the 5 s spill timer of HeaderMap (replaced by simulator-placed spill events)",
     "wall clock (ckb_systemtime faketime, advanced only by the simulator)",
-    "chain store / header map / main-chain index behind the ancestor lookups (plain maps following SyncShared::get_header_index_view)",
+    "part ancestor_skip_list only: chain store / header map / main-chain index behind the ancestor lookups (plain maps following SyncShared::get_header_index_view)",
+    "part locator_on_sync_shared: no peers, no chain service; headers carry no proof of work (insert_valid_header does not verify); one node per worker thread is reused across runs, each run removes its own (seed-unique) headers",
     "LonelyBlockHash items are built from fake hashes (no real blocks; verify_callback None)",
     "OrphanBlockPool::get_block (needs a ChainDB) is not called",
 ]
 LOCATOR_NOTE = (
-    "ActiveChain::get_locator itself is NOT executed by this check (it needs a full SyncShared); the 'ancestor' part issues "
-    "the exact (base, index) sequence of get_locator against the real HeaderIndexView::get_ancestor and compares every element "
-    "with the parent walk, so the skip-list part of locator construction is covered, the loop in get_locator is not (DESIGN.md assigns it to E-NODE)"
+    "ActiveChain::get_locator IS covered: part locator_on_sync_shared builds a real SyncShared (temp RocksDB with the genesis block, real Shared and HeaderMap), "
+    "feeds real HeaderViews through SyncShared::insert_valid_header and compares ActiveChain::get_locator / ActiveChain::get_ancestor with a parent walk "
+    "(chains up to ~27k headers so that the low-height sampling above 8192 runs). Its stored main chain is the genesis block only, so the main-chain shortcut "
+    "fires at height 0 only there; shortcuts at arbitrary heights, moving tips and skip-less store views are covered by part ancestor_skip_list, which also issues "
+    "get_locator's (base, index) schedule against HeaderIndexView::get_ancestor"
 )
 
 
@@ -46,8 +51,9 @@ def run(tier, args):
     parts = [
         ("orphan_pool", ["--kind", "orphan"], 600_000 if q else 12_000_000, 0),
         ("inflight_blocks", ["--kind", "inflight"], 400_000 if q else 8_000_000, 1),
-        ("header_map", ["--kind", "headermap"], 50_000 if q else 1_200_000, 2),
-        ("ancestor_skip_list", ["--kind", "ancestor"], 120_000 if q else 2_000_000, 3),
+        ("header_map", ["--kind", "headermap"], 40_000 if q else 1_000_000, 2),
+        ("ancestor_skip_list", ["--kind", "ancestor"], 100_000 if q else 1_500_000, 3),
+        ("locator_on_sync_shared", ["--kind", "locator"], 16_000 if q else 400_000, 4),
     ]
     if args.seeds:
         a, b = args.seeds.split("..")
@@ -75,7 +81,8 @@ def run(tier, args):
         "orphan_pool: at least one release returned >= 2 blocks spanning >= 2 levels below the released parent; "
         "inflight_blocks: at least one prune released an entry by time-out while at least one other entry stayed in flight; "
         "header_map: at least one get was served from the sled backend after a spill; "
-        "ancestor_skip_list: at least one query >= 8 levels below its tip was answered off the main-chain shortcut with fewer header lookups than levels (skip pointers were followed)",
+        "ancestor_skip_list: at least one query >= 8 levels below its tip was answered off the main-chain shortcut with fewer header lookups than levels (skip pointers were followed); "
+        "locator_on_sync_shared: at least one get_locator call returned more than 11 hashes (the exponential-step phase ran)",
         "samples": agg.samples[:6],
         "parts": agg.parts,
         "part_timing": timing,
@@ -85,7 +92,7 @@ def run(tier, args):
         "distinct_operation_sequences": agg.distinct_interleavings,
         "distinct_abstract_states": agg.distinct_states,
         "abstract_state_measure": "orphan: (pool size, leader count, max subtree depth); inflight: (entries, tracked peers, slow marks, states whose peer list is gone, restart number set); "
-        "header map: (keys, memory-tier fill, backend size, keys present in both tiers); ancestor: (log2 nodes, log2 main tip, forks, log2 query distance, shortcut used)",
+        "header map: (keys, memory-tier fill, backend size, keys present in both tiers); ancestor: (log2 nodes, log2 main tip, forks, log2 query distance, shortcut used); locator: (locator length, log2 nodes, low-height sampling used)",
         "simulated_runs_per_hour": int(agg.runs / max(wall, 1e-3) * 3600),
         "steps": agg.steps,
         "simulated_time_ms": agg.sim_ms,
